@@ -42,6 +42,7 @@ def collections(s, n):
 
 def run(s):
     K.suite_workload(s)
+    K.fixtures_workload(s)
     K.pair_histories(s)
     q = s.tier == 'quick'
     K.story_grid(s, 3 if q else 4, layouts=('none', 'everywhere') if q else K.LAYOUTS, pretties=(True,) if q else (False, True),
